@@ -75,6 +75,7 @@ ID = r"[A-Za-z_][A-Za-z0-9_]*"
 RE_CLASS = re.compile(r"^class (%s)(?:\((%s)\))?$" % (ID, ID))
 RE_CONST = re.compile(r"^const (%s) = (\d+|'[^']*')( multilang)?$" % ID)
 RE_TYPE = re.compile(r"^type (%s) : (%s|'[^']*' to '[^']*')$" % (ID, ID))
+RE_TYPEPROC = re.compile(r"^type (%s) : proc(\([^()]*\))$" % ID)
 RE_FIELD = re.compile(r"^(memory )?(%s) : (%s)((?: (?:private|protected|override))*)(?: absolute (%s))?$" % (ID, ID, ID))
 RE_PROC = re.compile(r"^proc (%s(?:#%s)?)(\([^()]*\))?((?: (?:override|private|protected|final|forward))*)$" % (ID, ID))
 RE_FUNC = re.compile(r"^func (%s)(\([^()]*\))? return (%s)((?: (?:override|private|protected|final|forward))*)$" % (ID, ID))
@@ -112,7 +113,24 @@ def analyse(text):
             continue
         m = RE_TYPE.match(ln)
         if m:
-            items.append(dict(kind="type", line=i, name=m.group(1), col=m.start(1), typ=m.group(2)))
+            items.append(dict(kind="type", line=i, name=m.group(1), col=m.start(1), typ=m.group(2), params=[]))
+            i += 1
+            continue
+        m = RE_TYPEPROC.match(ln)
+        if m:
+            # a procedure type: its parameters are parameters too (of no method: no override exemption can apply)
+            params = []
+            inner = m.group(2)[1:-1]
+            off = m.start(2) + 1
+            if inner.strip() == "":
+                return None
+            for part in inner.split(", "):
+                pm = RE_PARAM.match(part)
+                if not pm:
+                    return None
+                params.append((pm.group(1), off + pm.start(1)))
+                off += len(part) + 2
+            items.append(dict(kind="type", line=i, name=m.group(1), col=m.start(1), typ="proc", params=params))
             i += 1
             continue
         m = RE_PROC.match(ln) or RE_FUNC.match(ln)
@@ -262,6 +280,9 @@ def expected(text, quirks=frozenset()):
         elif k == "type":
             if not nm.startswith("t"):
                 out.append(d("NTYPE", it["line"], it["col"], nm))
+            for (pn, pc) in it.get("params", []):
+                if pn[0].islower():
+                    out.append(d("NPARAM", it["line"], pc, pn))
         elif k == "field":
             if "override" not in it["mods"] and nm[0].islower():
                 out.append(d("NFIELD", it["line"], it["col"], nm))
@@ -474,8 +495,12 @@ def rand_decl(rng):
         n = rng.choice(["cGood", "Bad", "mlText", "MlText", "mX", "_cX", "C", "cx"])
         v = rng.choice(["1", "'a'", "'héllo'"])
         return ["const %s = %s%s" % (n, v, " multilang" if v != "1" and rng.random() < 0.5 else "")]
-    if k < 0.55:
+    if k < 0.45:
         return ["type %s : %s" % (rng.choice(["tGood", "TBad", "Bad", "bad", "_tX", "t"]), rng.choice(["int4", "cString"]))]
+    if k < 0.55:
+        ps = ", ".join("%s%s : int4" % (rng.choice(["", "", "inout ", "const "]), rng.choice(["Good", "bad", "aB", "X", "wrongParam"]))
+                       for _ in range(rng.randint(1, 2)))
+        return ["type %s : proc(%s)" % (rng.choice(["tCb", "tHandler", "Cb"]), ps)]
     if k < 0.9:
         n = rng.choice(["Good", "bad", "_x", "X", "xY", "Init"])
         m = rng.choice(["", "", " override", " private", " private override"])
